@@ -120,13 +120,14 @@ def apply_model(m: AclM, op: dict) -> Expect:  # noqa: C901
     m = m.clone()
     n = len(m.blocks)
     if k in ("set_platform", "flip3"):
-        p = op["p"]
-        if m.type == "standard" and p == "nxos":
-            return Expect(None, error="ValueError")
-        if p == "nxos":
-            split_all(m)
-            regroup(m)
-        m.platform = p
+        seq = [op["p"]] if k == "set_platform" else [op["p"], m.platform, op["p"]]
+        for p in seq:
+            if m.type == "standard" and p == "nxos":
+                return Expect(None, error="ValueError")
+            if p == "nxos":
+                split_all(m)
+                regroup(m)
+            m.platform = p
         return Expect(m)
     if k in ("set_port_nr", "set_protocol_nr"):
         setattr(m, k[4:], bool(op["b"]))
